@@ -52,6 +52,12 @@ def pool(it):
     P.append(("one empty run", mk(it, ("", {}))))
     P.append(("red 'hellp'", mk(it, ("hellp", {"fg": 31}))))
     P.append(("newline text", mk(it, ("a\nb", {"underline": True}))))
+    # many runs (round 10): the same characters in six runs, with and without an empty formatted run among them
+    R, B = {"fg": 31}, {"fg": 34}
+    six = [("h", R), ("e", B), ("l", R), ("l", B), ("o", R), ("!", B)]
+    P.append(("'hello!' in six runs red / blue", mk(it, *six)))
+    P.append(("'hello!' in six runs red / blue with an empty bold run inside", mk(it, *(six[:3] + [("", {"bold": True})] + six[3:]))))
+    P.append(("'hello!' in six runs red / blue, the fourth run red", mk(it, *(six[:3] + [("l", R)] + six[4:]))))
     return P
 
 
